@@ -59,6 +59,9 @@ impl File {
     pub(crate) fn dirty_bytes(&self) -> u64 {
         self.size() - self.synced_size()
     }
+    pub(crate) fn syncable_dirty_bytes(&self) -> u64 {
+        self.dirty_bytes()
+    }
 
     pub(crate) async fn write_append_writable_data<R: Send + 'static>(
         &self,
